@@ -38,22 +38,29 @@ def x5cList (v : Option Cbor) : Except Err (List Bytes) :=
   | _ => .error (oomErr "x5c-shape")
 
 /-- `validate_certificate_chain` inside `try … except InvalidCertificateChain: raise InvalidRegistrationResponse` -/
+def chainResult (r : ChainOutcome) (site : String) : Except Err Unit :=
+  match r with
+  | .ok => .ok ()
+  | _ => .error (regErr (site ++ ".chain"))
+
 def validateChainReg (x5c : List Bytes) (roots : List Root) (site : String) : M Unit :=
   if roots.isEmpty then pure ()
   else match x5c with
     | [] => throw (regErr (site ++ ".chain.x5c-empty"))
     | leaf :: inter => do
       let r ← chainVerifyM leaf inter roots
-      match r with
-      | .ok => pure ()
-      | _ => throw (regErr (site ++ ".chain"))
+      liftE (chainResult r site)
 
 /-- `x509.load_der_x509_certificate(der)` -/
 def loadCert (der : Bytes) (site : String) : M CertView := do
   let r ← x509LoadM der
+  liftE (someOr r (nonlibErr "ValueError" site))
+
+def sigResult (r : SigOutcome) (onInvalid : Err) : Except Err Unit :=
   match r with
-  | some v => pure v
-  | none => throw (nonlibErr "ValueError" site)
+  | .valid => .ok ()
+  | .invalid => .error onInvalid
+  | .raised c => .error (nonlibErr c "verify_signature.raised")
 
 /-- `verify_signature` with the signature taken from a CBOR member -/
 def verifySignatureC (k : PubKey) (alg : Cbor) (sig : Option Cbor) (data : Bytes) (onInvalid : Err) : M Unit :=
@@ -63,10 +70,7 @@ def verifySignatureC (k : PubKey) (alg : Cbor) (sig : Option Cbor) (data : Bytes
     match sig with
     | some (.bytes b) => do
       let r ← sigVerifyM k s b data
-      match r with
-      | .valid => pure ()
-      | .invalid => throw onInvalid
-      | .raised c => throw (nonlibErr c "verify_signature.raised")
+      liftE (sigResult r onInvalid)
     | _ => throw (nonlibErr "TypeError" "verify_signature.sig-type")
 
 /-- Python `a != b` between the key's alg and the statement's alg (scalars only) -/
@@ -89,9 +93,7 @@ def verifyPacked (st : AttStmt) (authDataRaw : Cbor) (cdj : Bytes) (credKey : By
   if cborTruthy st.x5c then do
     let x5c ← liftE (x5cList st.x5c)
     validateChainReg x5c roots "packed"
-    let leaf ← match x5c with
-      | l :: _ => pure l
-      | [] => throw (nonlibErr "IndexError" "packed.x5c0")
+    let leaf ← liftE (headOr x5c (nonlibErr "IndexError" "packed.x5c0"))
     let cert ← loadCert leaf "packed.cert"
     verifySignatureC cert.key alg st.sig data (regErr "packed.signature")
   else do
@@ -108,6 +110,14 @@ def x5cLen (v : Option Cbor) : Except Err Nat :=
   | some (.arr xs) => .ok xs.length
   | _ => .error (oomErr "x5c-shape")
 
+def ecCurveOf : PubKey → Option Curve
+  | .ec c _ _ => some c
+  | _ => none
+
+def ec2Coords : CoseKey → Option (Cbor × Cbor)
+  | .ec2 _ _ _ x y => some (x, y)
+  | _ => none
+
 def zeroAaguid : String := "00000000-0000-0000-0000-000000000000"
 
 def verifyFidoU2f (st : AttStmt) (cdj : Bytes) (rpIdHash credId credKey aaguid : Bytes) (roots : List Root) : M Unit := do
@@ -119,20 +129,14 @@ def verifyFidoU2f (st : AttStmt) (cdj : Bytes) (rpIdHash credId credKey aaguid :
   validateChainReg x5c roots "u2f"
   let aa ← liftE (aaguidToString aaguid)
   reject (aa != zeroAaguid) (regErr "u2f.aaguid")
-  let leaf ← match x5c with
-    | l :: _ => pure l
-    | [] => throw (nonlibErr "IndexError" "u2f.x5c0")
+  let leaf ← liftE (headOr x5c (nonlibErr "IndexError" "u2f.x5c0"))
   let cert ← loadCert leaf "u2f.cert"
-  let crv ← match cert.key with
-    | .ec c _ _ => pure c
-    | _ => throw (regErr "u2f.leaf-not-ec")
+  let crv ← liftE (someOr (ecCurveOf cert.key) (regErr "u2f.leaf-not-ec"))
   reject (crv != .p256) (regErr "u2f.leaf-not-p256")
   let key ← liftE (decodeCose credKey)
-  let (x, y) ← match key with
-    | .ec2 _ _ _ x y => pure (x, y)
-    | _ => throw (regErr "u2f.cred-not-ec2")
-  let xb ← liftE (needBytes x "u2f.join")
-  let yb ← liftE (needBytes y "u2f.join")
+  let xy ← liftE (someOr (ec2Coords key) (regErr "u2f.cred-not-ec2"))
+  let xb ← liftE (needBytes xy.1 "u2f.join")
+  let yb ← liftE (needBytes xy.2 "u2f.join")
   let cdHash ← sha256M cdj
   let data := [0x00] ++ rpIdHash ++ cdHash ++ credId ++ ([0x04] ++ xb ++ yb)
   verifySignatureC cert.key (.nint 6) st.sig data (regErr "u2f.signature")
@@ -164,57 +168,58 @@ def strTruthy (s : Option String) : Bool :=
   | some t => !t.isEmpty
   | none => false
 
+def sanAttrs (san : SanFirst) : Except Err (List (String × String)) :=
+  match san with
+  | .dirName a => .ok a
+  | .empty => .error (nonlibErr "IndexError" "tpm.san-empty")
+  | .otherName => .error (nonlibErr "TypeError" "tpm.san-othername")
+  | .text => .error (nonlibErr "AttributeError" "tpm.san-text")
+  | .otherKind => .error (nonlibErr "TypeError" "tpm.san-otherkind")
+
 /-- the AIK certificate requirements -/
 def tpmCertProfile (cert : CertView) : Except Err Unit := do
   rejectE (!cert.versionV3) (regErr "tpm.cert-version")
   rejectE (decide (cert.subjectLen > 0)) (regErr "tpm.cert-subject")
   rejectE (!cert.extsOk) (nonlibErr "ValueError" "tpm.cert-extensions")
-  let san ← match cert.san with
-    | some s => pure s
-    | none => throw (regErr "tpm.san-missing")
-  let attrs ← match san with
-    | .dirName a => pure a
-    | .empty => throw (nonlibErr "IndexError" "tpm.san-empty")
-    | .otherName => throw (nonlibErr "TypeError" "tpm.san-othername")
-    | .text => throw (nonlibErr "AttributeError" "tpm.san-text")
-    | .otherKind => throw (nonlibErr "TypeError" "tpm.san-otherkind")
-  let (manufacturer, model, version) := tcgAttrs attrs
-  rejectE (!strTruthy manufacturer || !strTruthy model || !strTruthy version) (regErr "tpm.san-attrs")
-  rejectE (!(tpmManufacturers.contains (manufacturer.getD ""))) (regErr "tpm.vendor")
-  let eku ← match cert.eku with
-    | some e => pure e
-    | none => throw (regErr "tpm.eku-missing")
-  let first ← match eku with
-    | o :: _ => pure o
-    | [] => throw (nonlibErr "IndexError" "tpm.eku-empty")
+  let san ← someOr cert.san (regErr "tpm.san-missing")
+  let attrs ← sanAttrs san
+  let t := tcgAttrs attrs
+  rejectE (!strTruthy t.1 || !strTruthy t.2.1 || !strTruthy t.2.2) (regErr "tpm.san-attrs")
+  rejectE (!(tpmManufacturers.contains (t.1.getD ""))) (regErr "tpm.vendor")
+  let eku ← someOr cert.eku (regErr "tpm.eku-missing")
+  let first ← headOr eku (nonlibErr "IndexError" "tpm.eku-empty")
   rejectE (first != "2.23.133.8.3") (regErr "tpm.eku-first")
-  let ca ← match cert.bcCa with
-    | some c => pure c
-    | none => throw (regErr "tpm.bc-missing")
+  let ca ← someOr cert.bcCa (regErr "tpm.bc-missing")
   rejectE ca (regErr "tpm.bc-ca")
+
+def rsaMembers : CoseKey → Option (Cbor × Cbor)
+  | .rsa _ _ n e => some (n, e)
+  | _ => none
+
+def ec2Members : CoseKey → Option (Cbor × Cbor × Cbor)
+  | .ec2 _ _ crv x y => some (crv, x, y)
+  | _ => none
+
+def bytesNe (v : Cbor) (b : Bytes) : Bool :=
+  match v with
+  | .bytes c => b != c
+  | _ => true
 
 /-- pubArea / credential key agreement -/
 def tpmKeyAgreement (pa : TPMPubArea) (key : CoseKey) : Except Err Unit :=
   match pa.parameters with
   | .rsa _ _ _ exponent => do
-    let (n, e) ← match key with
-      | .rsa _ _ n e => pure (n, e)
-      | _ => throw (regErr "tpm.key-not-rsa")
-    rejectE (match n with | .bytes b => pa.unique != b | _ => true) (regErr "tpm.unique-modulus")
-    let paExp := if beNat exponent == 0 then 65537 else beNat exponent
-    let eb ← needBytes e "tpm.exponent-type"
-    rejectE (paExp != beNat eb) (regErr "tpm.exponent")
+    let ne ← someOr (rsaMembers key) (regErr "tpm.key-not-rsa")
+    rejectE (bytesNe ne.1 pa.unique) (regErr "tpm.unique-modulus")
+    let eb ← needBytes ne.2 "tpm.exponent-type"
+    rejectE ((if beNat exponent == 0 then 65537 else beNat exponent) != beNat eb) (regErr "tpm.exponent")
   | .ecc _ _ curveId _ => do
-    let (crv, x, y) ← match key with
-      | .ec2 _ _ crv x y => pure (crv, x, y)
-      | _ => throw (regErr "tpm.key-not-ecc")
-    let xb ← needBytes x "tpm.join"
-    let yb ← needBytes y "tpm.join"
+    let m ← someOr (ec2Members key) (regErr "tpm.key-not-ecc")
+    let xb ← needBytes m.2.1 "tpm.join"
+    let yb ← needBytes m.2.2 "tpm.join"
     rejectE (pa.unique != xb ++ yb) (regErr "tpm.unique-xy")
-    let paCrv ← match tpmEccCurveCoseCrvMap.lookup curveId with
-      | some c => pure c
-      | none => throw (nonlibErr "KeyError" "tpm.curve-map")
-    rejectE (crv.asInt? != some paCrv) (regErr "tpm.curve")
+    let paCrv ← someOr (tpmEccCurveCoseCrvMap.lookup curveId) (nonlibErr "KeyError" "tpm.curve-map")
+    rejectE (m.1.asInt? != some paCrv) (regErr "tpm.curve")
 
 def verifyTpm (st : AttStmt) (authDataRaw : Cbor) (cdj : Bytes) (credKey : Bytes) (roots : List Root) : M Unit := do
   reject (!cborTruthy st.certInfo) (regErr "tpm.certinfo-missing")
@@ -236,14 +241,10 @@ def verifyTpm (st : AttStmt) (authDataRaw : Cbor) (cdj : Bytes) (credKey : Bytes
   let attToBeSigned ← liftE (attToBeSigned authDataRaw cdHash "tpm.join")
   let extra ← hashByAlgM attToBeSigned st.alg
   reject (ci.extraData != extra) (regErr "tpm.extra-data")
-  let nameCose ← match tpmAlgCoseAlgMap.lookup pa.nameAlg with
-    | some a => pure a
-    | none => throw (nonlibErr "KeyError" "tpm.name-alg-map")
+  let nameCose ← liftE (someOr (tpmAlgCoseAlgMap.lookup pa.nameAlg) (nonlibErr "KeyError" "tpm.name-alg-map"))
   let paHash ← hashByAlgM pubAreaBytes (some (cborOfInt nameCose))
   reject (ci.attested.nameAlgBytes ++ paHash != ci.attested.name) (regErr "tpm.attested-name")
-  let leaf ← match x5c with
-    | l :: _ => pure l
-    | [] => throw (nonlibErr "IndexError" "tpm.x5c0")
+  let leaf ← liftE (headOr x5c (nonlibErr "IndexError" "tpm.x5c0"))
   let cert ← loadCert leaf "tpm.cert"
   verifySignatureC cert.key (st.alg.getD .null) st.sig certInfoBytes (regErr "tpm.signature")
   liftE (tpmCertProfile cert)
@@ -257,14 +258,10 @@ def verifyApple (st : AttStmt) (authDataRaw : Cbor) (cdj : Bytes) (credKey : Byt
   let cdHash ← sha256M cdj
   let nonceToHash ← liftE (attToBeSigned authDataRaw cdHash "apple.join")
   let nonce ← sha256M nonceToHash
-  let leaf ← match x5c with
-    | l :: _ => pure l
-    | [] => throw (nonlibErr "IndexError" "apple.x5c0")
+  let leaf ← liftE (headOr x5c (nonlibErr "IndexError" "apple.x5c0"))
   let cert ← loadCert leaf "apple.cert"
   reject (!cert.extsOk) (nonlibErr "ValueError" "apple.cert-extensions")
-  let ext ← match cert.appleNonce with
-    | some e => pure e
-    | none => throw (regErr "apple.nonce-ext-missing")
+  let ext ← liftE (someOr cert.appleNonce (regErr "apple.nonce-ext-missing"))
   reject (ext.drop 6 != nonce) (regErr "apple.nonce")
   let key ← liftE (decodeCose credKey)
   let pk ← loadCoseKey key
@@ -273,27 +270,33 @@ def verifyApple (st : AttStmt) (authDataRaw : Cbor) (cdj : Bytes) (credKey : Byt
 
 /-! ### android-key -/
 
+/-- the PEM constants behind a list of built-in root names -/
+def builtinPemsM : List String → M (List Bytes)
+  | [] => pure []
+  | n :: ns => do
+    let p ← builtinPemM n
+    let ps ← builtinPemsM ns
+    pure (p :: ps)
+
+def rpPemsOf (roots : List Root) : List Bytes :=
+  roots.filterMap (fun r => match r with | .pem b => some b | .builtin _ => none)
+
 def verifyAndroidKey (st : AttStmt) (authDataRaw : Cbor) (cdj : Bytes) (credKey : Bytes) (roots : List Root) : M Unit := do
   reject (!cborTruthy st.sig) (regErr "akey.sig-missing")
   reject (!cborTruthy st.alg) (regErr "akey.alg-missing")
   reject (!cborTruthy st.x5c) (regErr "akey.x5c-missing")
   let x5c ← liftE (x5cList st.x5c)
-  let rootDer ← match x5c.getLast? with
-    | some r => pure r
-    | none => throw (nonlibErr "IndexError" "akey.x5c-last")
+  let rootDer ← liftE (someOr x5c.getLast? (nonlibErr "IndexError" "akey.x5c-last"))
   let noRoot := x5c.dropLast
   let rootCert ← loadCert rootDer "akey.root-cert"
   validateChainReg noRoot [Root.pem rootCert.pem] "akey"
   -- "Make sure the root cert is one of these"
   let builtin := (builtinRootNames.lookup "android-key").getD []
-  let builtinPems ← builtin.mapM builtinPemM
-  let rpPems := roots.filterMap (fun r => match r with | .pem b => some b | .builtin _ => none)
-  reject (!((rpPems ++ builtinPems).contains rootCert.pem)) (regErr "akey.root-unknown")
+  let builtinPems ← builtinPemsM builtin
+  reject (!((rpPemsOf roots ++ builtinPems).contains rootCert.pem)) (regErr "akey.root-unknown")
   let cdHash ← sha256M cdj
   let data ← liftE (attToBeSigned authDataRaw cdHash "akey.join")
-  let leaf ← match x5c with
-    | l :: _ => pure l
-    | [] => throw (nonlibErr "IndexError" "akey.x5c0")
+  let leaf ← liftE (headOr x5c (nonlibErr "IndexError" "akey.x5c0"))
   let cert ← loadCert leaf "akey.cert"
   verifySignatureC cert.key (st.alg.getD .null) st.sig data (regErr "akey.signature")
   let key ← liftE (decodeCose credKey)
@@ -301,13 +304,9 @@ def verifyAndroidKey (st : AttStmt) (authDataRaw : Cbor) (cdj : Bytes) (credKey 
   let spki ← spkiM pk
   reject (cert.spki != spki) (regErr "akey.key-mismatch")
   reject (!cert.extsOk) (nonlibErr "ValueError" "akey.cert-extensions")
-  let kdDer ← match cert.keyDesc with
-    | some d => pure d
-    | none => throw (regErr "akey.keydesc-missing")
+  let kdDer ← liftE (someOr cert.keyDesc (regErr "akey.keydesc-missing"))
   let kdr ← keyDescriptionM kdDer
-  let kd ← match kdr with
-    | some k => pure k
-    | none => throw (nonlibErr "ValueError" "akey.keydesc-parse")
+  let kd ← liftE (someOr kdr (nonlibErr "ValueError" "akey.keydesc-parse"))
   reject (kd.attestationChallenge != cdHash) (regErr "akey.challenge")
   reject (!kd.swAllAppsNativeIsNone) (regErr "akey.allapps-software")
   reject (!kd.teeAllAppsNativeIsNone) (regErr "akey.allapps-tee")
@@ -323,14 +322,17 @@ def splitOnDot (s : List Char) : List (List Char) :=
     | [] => [[c]]) [[]]
 
 /-- `json.loads(base64url_to_bytes(part))` must be a dict (`.get` is called on it) -/
+def jsonObjOf (r : JsonOutcome) (site : String) : Except Err (List (String × JVal)) :=
+  match r with
+  | .ok (.obj kvs) => .ok kvs
+  | .ok _ => .error (nonlibErr "AttributeError" site)
+  | .decodeError => .error (nonlibErr "JSONDecodeError" site)
+  | .otherError c => if c.startsWith "oom:" then .error (oomErr c) else .error (nonlibErr c site)
+
 def jwsPartJson (part : List Char) (site : String) : M (List (String × JVal)) := do
   let b ← liftE (Base64.decode part)
   let r ← jsonLoadsBytesM b
-  match r with
-  | .ok (.obj kvs) => pure kvs
-  | .ok _ => throw (nonlibErr "AttributeError" site)
-  | .decodeError => throw (nonlibErr "JSONDecodeError" site)
-  | .otherError c => if c.startsWith "oom:" then throw (oomErr c) else throw (nonlibErr c site)
+  liftE (jsonObjOf r site)
 
 def asciiChars (b : Bytes) : Option (List Char) :=
   b.mapM (fun x => if x.toNat < 128 then some (Char.ofNat x.toNat) else none)
@@ -340,53 +342,58 @@ def b64Std (b : Bytes) : List Char :=
   let e := (Base64.encode b).map (fun c => if c == '-' then '+' else if c == '_' then '/' else c)
   e ++ List.replicate ((4 - e.length % 4) % 4) '='
 
+def responseBytes (v : Option Cbor) : Except Err Bytes :=
+  match v with
+  | some (.bytes b) => .ok b
+  | _ => .error (nonlibErr "AttributeError" "snet.response-type")
+
+def threeParts (parts : List (List Char)) : Except Err (List Char × List Char × List Char) :=
+  match parts with
+  | [a, b, c] => .ok (a, b, c)
+  | _ => .error (regErr "snet.jws-parts")
+
+def jvalStrIs (v : JVal) (s : List Char) : Bool :=
+  match v with
+  | .str t => t.toList == s
+  | _ => false
+
+def snetX5c (v : JVal) : Except Err (List Bytes) :=
+  match v with
+  | .arr xs => xs.mapM b64urlOfJVal
+  | _ => .error (oomErr "snet-x5c-shape")
+
+def snetTimestamp (v : JVal) : Except Err Int :=
+  match v with
+  | .int i => .ok i
+  | .bool b => .ok (if b then 1 else 0)
+  | .real _ => .error (oomErr "snet-timestamp-float")
+  | _ => .error (nonlibErr "TypeError" "snet.timestamp-type")
+
 def verifySafetyNet (st : AttStmt) (authDataRaw : Cbor) (cdj : Bytes) (roots : List Root) : M Unit := do
   reject (!cborTruthy st.ver) (regErr "snet.ver-missing")
   reject (!cborTruthy st.response) (regErr "snet.response-missing")
-  let resp ← match st.response with
-    | some (.bytes b) => pure b
-    | _ => throw (nonlibErr "AttributeError" "snet.response-type")
-  let jws ← match asciiChars resp with
-    | some cs => pure cs
-    | none => throw (nonlibErr "UnicodeDecodeError" "snet.response-ascii")
-  let parts := splitOnDot jws
-  let (p0, p1, p2) ← match parts with
-    | [a, b, c] => pure (a, b, c)
-    | _ => throw (regErr "snet.jws-parts")
-  let header ← jwsPartJson p0 "snet.header"
-  let payload ← jwsPartJson p1 "snet.payload"
-  let hAlg := (JVal.lookup header "alg").getD (.str "")
-  let hX5c := (JVal.lookup header "x5c").getD (.arr [])
-  let nonceV := (JVal.lookup payload "nonce").getD (.str "")
-  let tsV := (JVal.lookup payload "timestampMs").getD (.int 0)
-  let integrity := (JVal.lookup payload "basicIntegrity").getD (.bool false)
+  let resp ← liftE (responseBytes st.response)
+  let jws ← liftE (someOr (asciiChars resp) (nonlibErr "UnicodeDecodeError" "snet.response-ascii"))
+  let parts ← liftE (threeParts (splitOnDot jws))
+  let header ← jwsPartJson parts.1 "snet.header"
+  let payload ← jwsPartJson parts.2.1 "snet.payload"
   let cdHash ← sha256M cdj
   let nonceData ← liftE (attToBeSigned authDataRaw cdHash "snet.join")
   let nonceHash ← sha256M nonceData
-  reject (!(match nonceV with | .str s => s.toList == b64Std nonceHash | _ => false)) (regErr "snet.nonce")
-  let x5c ← match hX5c with
-    | .arr xs => liftE (xs.mapM b64urlOfJVal)
-    | _ => throw (oomErr "snet-x5c-shape")
-  reject (!integrity.truthy) (regErr "snet.basic-integrity")
-  let ts ← match tsV with
-    | .int i => pure i
-    | .bool b => pure (if b then 1 else 0)
-    | .real _ => throw (oomErr "snet-timestamp-float")
-    | _ => throw (nonlibErr "TypeError" "snet.timestamp-type")
+  reject (!jvalStrIs ((JVal.lookup payload "nonce").getD (.str "")) (b64Std nonceHash)) (regErr "snet.nonce")
+  let x5c ← liftE (snetX5c ((JVal.lookup header "x5c").getD (.arr [])))
+  reject (!((JVal.lookup payload "basicIntegrity").getD (.bool false)).truthy) (regErr "snet.basic-integrity")
+  let ts ← liftE (snetTimestamp ((JVal.lookup payload "timestampMs").getD (.int 0)))
   let late ← safetynetTimestampFails ts
   reject late (regErr "snet.timestamp")
-  let leaf ← match x5c with
-    | l :: _ => pure l
-    | [] => throw (nonlibErr "IndexError" "snet.x5c0")
+  let leaf ← liftE (headOr x5c (nonlibErr "IndexError" "snet.x5c0"))
   let cert ← loadCert leaf "snet.cert"
-  let cn ← match cert.subjectCNs with
-    | c :: _ => pure c
-    | [] => throw (nonlibErr "IndexError" "snet.cn-missing")
+  let cn ← liftE (headOr cert.subjectCNs (nonlibErr "IndexError" "snet.cn-missing"))
   reject (cn != "attest.android.com") (regErr "snet.cn")
   validateChainReg x5c (roots ++ (builtinRootNames.lookup "android-safetynet" |>.getD []).map Root.builtin) "snet"
-  let data := utf8 (String.ofList (p0 ++ ['.'] ++ p1))
-  let sig ← liftE (Base64.decode p2)
-  reject (!(match hAlg with | .str s => s == "RS256" | _ => false)) (regErr "snet.alg")
-  verifySignatureC cert.key (.nint 256) (some (.bytes sig)) data (regErr "snet.signature")
+  let sig ← liftE (Base64.decode parts.2.2)
+  reject (!jvalStrIs ((JVal.lookup header "alg").getD (.str "")) "RS256".toList) (regErr "snet.alg")
+  verifySignatureC cert.key (.nint 256) (some (.bytes sig))
+    (utf8 (String.ofList (parts.1 ++ ['.'] ++ parts.2.1))) (regErr "snet.signature")
 
 end Webauthn
